@@ -1140,7 +1140,7 @@ def content_eval(stmts, atom_content, atom_truth, tracked_of_return=None, may=Fa
       raise Uninterpreted('target `%s`' % u(t))
 
   def run(stmts, env):
-    for st in stmts:
+    for si, st in enumerate(stmts):
       if isinstance(st, ast.Expr) and isinstance(st.value, ast.Constant) or isinstance(st, (ast.Pass, ast.Import, ast.ImportFrom, ast.Global, ast.Nonlocal, ast.Assert)):
         continue
       if isinstance(st, ast.Return):
@@ -1175,6 +1175,13 @@ def content_eval(stmts, atom_content, atom_truth, tracked_of_return=None, may=Fa
           live = [(r, e) for r, e in ((r1, e1), (r2, e2)) if r != 'RAISE']
           if not live:
             return 'RAISE'
+          if len(live) == 2 and isinstance(r1, set) != isinstance(r2, set) and None in (r1, r2):
+            # one branch returns, the other goes on: fine if going on ends in a raise or returns the same
+            rr, ee = (r1, e2) if isinstance(r1, set) else (r2, e1)
+            rest = run(stmts[si + 1:], ee)
+            if rest == 'RAISE' or rest == rr:
+              return rr
+            raise Uninterpreted('condition `%s` (one branch returns, the other goes on to something else)' % u(st.test))
           if len(live) == 2 and (r1 != r2 or e1 != e2):
             raise Uninterpreted('condition `%s` (the branches differ)' % u(st.test))
           r, e = live[0]
